@@ -6,6 +6,13 @@ From RX Require Import Generated.
 From RX.Model Require Import Base CharClass Stream Tokenizer.
 From RX.Proofs Require Import Tactics OptionsParam BudgetStream BudgetTok TruncStream TruncTok.
 
+(* lia with ZifyBool splits on every boolean equation in the context: drop them first *)
+Ltac clear_bools :=
+  repeat match goal with
+  | H : @eq bool ?l _ |- _ => lazymatch l with is_boundary _ _ => fail | _ => clear H end
+  end.
+Ltac ng_branch ::= right; clear_bools; ng_done.
+
 Section DtdStream.
 Variable text : bytes.
 Variable n : N.
@@ -241,22 +248,22 @@ Proof.
     pose proof (mv_entity_decl _ _ _ _ _ Ha Wk) as (Wa & _ & Pa).
     pose proof (mv_doctype_loop _ _ _ _ _ _ _ H Wa) as (_ & _ & Pb).
     tsk. tsw.
-    destruct (X_entity_decl _ _ _ _ _ Hs0 Ha) as [-> [(s1a & Hfx & Hsa)|Hngx]]; [|right; ng_done].
-    rewrite Hfx. cbn [bind]. eapply IHfuel2; eauto. lia. }
+    destruct (X_entity_decl _ _ _ _ _ Hs0 Ha) as [-> [(s1a & Hfx & Hsa)|Hngx]]; [|right; clear_bools; ng_done].
+    rewrite Hfx. cbn [bind]. eapply IHfuel2; eauto. clear - Hfu. lia. }
   destruct (starts_with (skip_spaces s2) (b "<!--")) eqn:E2.
   { apply bind_ok in H. destruct H as [[sa ca] [Ha H]]. cbv beta iota in H.
     pose proof (mv_comment C ev _ _ _ _ _ Ha Wk) as (Wa & _ & Pa).
     pose proof (mv_doctype_loop _ _ _ _ _ _ _ H Wa) as (_ & _ & Pb).
     tsk. tsw. tsw.
-    destruct (X_comment _ _ Hn Hbn C ev Hign _ _ _ _ _ Hs0 Ha) as [-> [(s1a & Hfx & Hsa)|Hngx]]; [|right; ng_done].
-    rewrite Hfx. cbn [bind]. eapply IHfuel2; eauto. lia. }
+    destruct (X_comment _ _ Hn Hbn C ev Hign _ _ _ _ _ Hs0 Ha) as [-> [(s1a & Hfx & Hsa)|Hngx]]; [|right; clear_bools; ng_done].
+    rewrite Hfx. cbn [bind]. eapply IHfuel2; eauto. clear - Hfu. lia. }
   destruct (starts_with (skip_spaces s2) (b "<?")) eqn:E3.
   { apply bind_ok in H. destruct H as [[sa ca] [Ha H]]. cbv beta iota in H.
     pose proof (mv_pi C ev _ _ _ _ _ Ha Wk) as (Wa & _ & Pa).
     pose proof (mv_doctype_loop _ _ _ _ _ _ _ H Wa) as (_ & _ & Pb).
     tsk. tsw. tsw. tsw.
-    destruct (X_pi _ _ Hn Hbn C ev Hign _ _ _ _ _ Hs0 Ha) as [-> [(s1a & Hfx & Hsa)|Hngx]]; [|right; ng_done].
-    rewrite Hfx. cbn [bind]. eapply IHfuel2; eauto. lia. }
+    destruct (X_pi _ _ Hn Hbn C ev Hign _ _ _ _ _ Hs0 Ha) as [-> [(s1a & Hfx & Hsa)|Hngx]]; [|right; clear_bools; ng_done].
+    rewrite Hfx. cbn [bind]. eapply IHfuel2; eauto. clear - Hfu. lia. }
   destruct (starts_with (skip_spaces s2) (b "]")) eqn:E4.
   { bsteps; posfacts; tsk; tsw; tsw; tsw; tsw; cbv iota.
     tbe T_advance. tsk.
@@ -272,8 +279,167 @@ Proof.
   pose proof (mv_doctype_loop _ _ _ _ _ _ _ H Wa) as (_ & _ & Pb).
   tsk. tsw. tsw. tsw. tsw.
   rewrite (sw_or3_true _ _ _ _ _ Hs0 E5).
-  destruct (T_consume_decl _ _ Hn Hbn _ _ _ Hs0 Ed) as [(s1a & Hfx & Hsa)|Hngx]; [|right; ng_done].
-  rewrite Hfx. eapply IHfuel2; eauto. lia.
+  destruct (T_consume_decl _ _ Hn Hbn _ _ _ Hs0 Ed) as [(s1a & Hfx & Hsa)|Hngx]; [|right; clear_bools; ng_done].
+  rewrite Hfx. eapply IHfuel2; eauto. clear - Hfu. lia.
+Qed.
+
+Lemma X_doctype s1 s2 c s2' c2' : sync s1 s2 -> parse_doctype p C ev s2 c = Ok (s2', c2') ->
+  c2' = c /\
+  ((exists s1', parse_doctype text C ev s1 c = Ok (s1', c) /\ sync s1' s2') \/ NG (s_pos s2')).
+Proof.
+  intros Hs H. split; [eapply ign_doctype; eauto|]. pose proof Hs as (_ & W2 & E0 & _).
+  unfold parse_doctype in *. cbv zeta in *. rewrite E0.
+  apply bind_ok in H. destruct H as [sa [Ha H]]. cbv beta in H.
+  pose proof (mv_parse_doctype_start _ _ _ Ha W2) as (Wa & _ & Pa).
+  pose proof (mv_skip_spaces _ _ Wa) as (Wk & _ & Pk).
+  assert (Hpos : s_pos (skip_spaces sa) <= s_pos s2').
+  { destruct (match curr_byte_opt (skip_spaces sa) with Some x => x =? 62 | None => false end).
+    - apply bind_ok in H. destruct H as [sb [Hb H]]. inversion H; subst.
+      pose proof (mv_advance _ _ _ _ Hb Wk) as (_ & _ & ?). lia.
+    - apply bind_ok in H. destruct H as [sb [Hb H]]. cbv beta in H.
+      pose proof (mv_advance _ _ _ _ Hb Wk) as (Wb & _ & ?).
+      pose proof (mv_doctype_loop _ _ _ _ _ _ _ H Wb) as (_ & _ & ?). lia. }
+  destruct (T_parse_doctype_start _ _ Hn Hbn _ _ _ Hs Ha) as [(s1a & Hf & Hsa)|Hng];
+    [|right; clear_bools; ng_done].
+  rewrite Hf. cbn [bind].
+  destruct (T_skip_spaces _ _ Hn Hbn _ _ Hsa) as [Hsk|Hend]; [|right; apply NG_end; try assumption; lia].
+  destruct (curr_byte_opt (skip_spaces sa)) as [x|] eqn:Ex.
+  - rewrite (T_cbo_some _ _ Hn Hbn _ _ _ Hsk Ex). destruct (x =? 62).
+    + apply bind_ok in H. destruct H as [sb [Hb H]]. inversion H; subst.
+      destruct (T_advance _ _ Hn Hbn _ _ _ _ Hsk Hb) as (s1b & Hfb & Hsb). rewrite Hfb. cbn [bind]. left. eauto.
+    + apply bind_ok in H. destruct H as [sb [Hb H]]. cbv beta in H.
+      destruct (T_advance _ _ Hn Hbn _ _ _ _ Hsk Hb) as (s1b & Hfb & Hsb). rewrite Hfb. cbn [bind].
+      eapply (X_doctype_loop _ (S (length (s_rest s1b)))) in H; [ | | exact Hsb].
+      * destruct H as [_ H]. exact H.
+      * destruct (sync_rest _ _ Hn Hbn _ _ Hsb) as [R _]. rewrite R, firstn_length. lia.
+  - right. apply NG_end; try assumption. rewrite <- (T_cbo_none _ _ Hn Hbn _ _ Hsk Ex). exact Hpos.
+Qed.
+
+(** * The whole tokenizer, with either value of allow_dtd *)
+
+Definition doc_tail_d (t : bytes) (dtd : bool) (s : stream) (c : C) : res C :=
+  let s := skip_spaces s in
+  let! (s, c) :=
+    if starts_with s (b "<!DOCTYPE") then
+      if negb dtd then Err DtdDetected
+      else let! (s, c) := parse_doctype t C ev s c in parse_misc t C ev s c
+    else Ok (s, c) in
+  doc_root C ev t (skip_spaces s) c.
+
+Lemma parse_document_cut_d t dtd c :
+  parse_document t C ev dtd c = let! (s, c) := doc_head C ev t c in doc_tail_d t dtd s c.
+Proof.
+  unfold parse_document, doc_head, doc_tail_d, doc_root. cbv zeta.
+  destruct (if starts_with (stream_new t) [239; 187; 191] then _ else _); cbn [bind]; try reflexivity.
+  destruct (if starts_with_declaration a then _ else _); cbn [bind]; try reflexivity.
+Qed.
+
+Ltac pass_cd :=
+  let I := fresh "I" in let HI := fresh "HI" in let Hc := fresh "Hc" in let Hr := fresh "Hr" in
+  intros I HI Hc ? Hr; usteps;
+  repeat first [ fw (u_parse_element text C ev I HI) | fw (u_parse_misc text C ev I HI)
+               | fw (u_parse_content text C ev I HI) | fw (u_parse_doctype text C ev I HI) ];
+  try assumption.
+
+(* the truncated run after the head: where the root part starts *)
+Lemma tail_d_inv dtd s c c' : doc_tail_d p dtd s c = Ok c' -> wfl p s ->
+  exists sd, wfl p sd /\ s_pos s <= s_pos sd /\ doc_root C ev p (skip_spaces sd) c = Ok c'.
+Proof.
+  intros H W. unfold doc_tail_d in H. cbv zeta in H.
+  pose proof (mv_skip_spaces _ _ W) as (W1 & _ & P1).
+  apply bind_ok in H. destruct H as [[sd cd] [Hd H]]. cbv beta iota in H.
+  destruct (starts_with (skip_spaces s) (b "<!DOCTYPE")).
+  - destruct (negb dtd); [discriminate|].
+    apply bind_ok in Hd. destruct Hd as [[sa ca] [Ha Hd]]. cbv beta iota in Hd.
+    pose proof (ign_doctype _ _ _ _ _ Ha). subst ca.
+    pose proof (ign_misc C ev Hign _ _ _ _ _ Hd). subst cd.
+    pose proof (mv_doctype _ _ _ _ _ Ha W1) as (Wa & _ & Pa).
+    pose proof (mv_misc_loop C ev _ _ _ _ _ _ Hd Wa) as (Wd & _ & Pd).
+    exists sd. split; [exact Wd|]. split; [lia|exact H].
+  - inversion Hd; subst. exists (skip_spaces s). split; [exact W1|]. split; [lia|exact H].
+Qed.
+
+Lemma NG_tail_d dtd s c c' : wfl p s -> NG (s_pos s) -> doc_tail_d p dtd s c = Ok c' -> c' = c.
+Proof.
+  intros W Hng H. destruct (tail_d_inv _ _ _ _ H W) as (sd & Wd & Pd & Hr).
+  pose proof (mv_skip_spaces _ _ Wd) as (W2 & _ & P2).
+  eapply (NG_root text n Hn Hbn C ev Hign); [exact W2| |exact Hr]. ng_done.
+Qed.
+
+Lemma X_tail_d dtd s1 s2 c c2' : sync s1 s2 -> doc_tail_d p dtd s2 c = Ok c2' ->
+  Pass_c C ev c2' (doc_tail_d text dtd s1 c).
+Proof.
+  intros Hs H. pose proof Hs as (_ & W2 & _).
+  pose proof (mv_skip_spaces _ _ W2) as (W3 & _ & P3).
+  unfold doc_tail_d in H. cbv zeta in H.
+  apply bind_ok in H. destruct H as [[sd cd] [Hd H]]. cbv beta iota in H.
+  (* lost before the root part: the state did not move *)
+  assert (Hlost : wfl p sd -> forall q, NG q -> q <= s_pos (skip_spaces sd) -> cd = c -> c2' = c).
+  { intros Wd q Hng Hq Hcd. subst cd. pose proof (mv_skip_spaces _ _ Wd) as (W4 & _ & P4).
+    eapply (NG_root text n Hn Hbn C ev Hign); [exact W4| |exact H]. ng_done. }
+  unfold doc_tail_d. cbv zeta.
+  destruct (starts_with (skip_spaces s2) (b "<!DOCTYPE")) eqn:Ed.
+  - destruct dtd; cbn [negb] in *; [|discriminate].
+    apply bind_ok in Hd. destruct Hd as [[sa ca] [Ha Hd]]. cbv beta iota in Hd.
+    pose proof (ign_doctype _ _ _ _ _ Ha). subst ca.
+    pose proof (ign_misc C ev Hign _ _ _ _ _ Hd). subst cd.
+    pose proof (mv_doctype _ _ _ _ _ Ha W3) as (Wa & _ & Pa).
+    pose proof (mv_misc_loop C ev _ _ _ _ _ _ Hd Wa) as (Wd & _ & Pd).
+    pose proof (mv_skip_spaces _ _ Wd) as (W4 & _ & P4).
+    specialize (Hlost Wd).
+    destruct (T_skip_spaces _ _ Hn Hbn _ _ Hs) as [Hs1|Hend].
+    2: { assert (HNG : NG (s_pos (skip_spaces s2))) by (apply NG_end; try assumption; lia).
+         rewrite (Hlost _ HNG ltac:(lia) eq_refl). unfold doc_root. pass_cd. }
+    rewrite (T_sw_true _ _ Hn Hbn _ _ _ Hs1 Ed).
+    destruct (X_doctype _ _ _ _ _ Hs1 Ha) as [_ [(s1a & Hfa & Hsa)|Hng]].
+    2: { rewrite (Hlost _ Hng ltac:(lia) eq_refl). unfold doc_root. pass_cd. }
+    rewrite Hfa. cbn [bind].
+    destruct (X_misc _ _ Hn Hbn C ev Hign _ _ _ _ _ Hsa Hd) as [_ [(s1d & Hfd & Hsd)|Hng]].
+    2: { rewrite (Hlost _ Hng ltac:(lia) eq_refl). unfold doc_root. pass_cd. }
+    rewrite Hfd. cbn [bind].
+    destruct (T_skip_spaces _ _ Hn Hbn _ _ Hsd) as [Hs2|Hend].
+    2: { assert (Hc : c2' = c).
+         { eapply (NG_root text n Hn Hbn C ev Hign); [exact W4| |exact H]. apply NG_end; try assumption. lia. }
+         rewrite Hc. unfold doc_root. pass_cd. }
+    eapply (X_root text n Hn Hbn C ev Hign); eauto.
+  - inversion Hd; subst sd cd. specialize (Hlost W3).
+    pose proof (mv_skip_spaces _ _ W3) as (W4 & _ & P4).
+    destruct (T_skip_spaces _ _ Hn Hbn _ _ Hs) as [Hs1|Hend].
+    2: { assert (HNG : NG (s_pos (skip_spaces s2))) by (apply NG_end; try assumption; lia).
+         rewrite (Hlost _ HNG ltac:(lia) eq_refl). unfold doc_root. pass_cd. }
+    destruct (T_sw_false _ _ Hn Hbn _ _ (b "<!DOCTYPE") Hs1 ltac:(pat_ok_tac) Ed) as [Hf|Hng].
+    2: { rewrite (Hlost _ Hng ltac:(lia) eq_refl). unfold doc_root. pass_cd. }
+    rewrite Hf. cbn [bind].
+    destruct (T_skip_spaces _ _ Hn Hbn _ _ Hs1) as [Hs2|Hend].
+    2: { assert (Hc : c2' = c).
+         { eapply (NG_root text n Hn Hbn C ev Hign); [exact W4| |exact H]. apply NG_end; try assumption. lia. }
+         rewrite Hc. unfold doc_root. pass_cd. }
+    eapply (X_root text n Hn Hbn C ev Hign); eauto.
+Qed.
+
+(* the truncated run of the whole tokenizer ends in a state that the full run passes through *)
+Theorem X_document_d dtd c c2' : parse_document p C ev dtd c = Ok c2' ->
+  Pass_c C ev c2' (parse_document text C ev dtd c).
+Proof.
+  intros H. rewrite parse_document_cut_d in H.
+  apply bind_ok in H. destruct H as [[s2 ch] [Hh H]]. cbv beta iota in H.
+  destruct (X_head text n Hn Hbn C ev Hign _ _ _ Hh) as [-> [(s1 & Hf & Hs)|Hng]].
+  - rewrite parse_document_cut_d, Hf. cbn [bind]. eapply X_tail_d; eauto.
+  - assert (W : wfl p s2).
+    { unfold doc_head in Hh. cbv zeta in Hh.
+      apply bind_ok in Hh. destruct Hh as [sa [Ha Hh]]. apply bind_ok in Hh. destruct Hh as [sb [Hb Hh]].
+      pose proof (wfl_new p) as W0.
+      assert (Wa : wfl p sa).
+      { destruct (starts_with (stream_new p) [239; 187; 191]).
+        - pose proof (mv_advance _ _ _ _ Ha W0) as (? & ? & ?). assumption.
+        - inversion Ha; subst. assumption. }
+      assert (Wb : wfl p sb).
+      { destruct (starts_with_declaration sa).
+        - pose proof (mv_parse_declaration _ _ _ Hb Wa) as (? & ? & ?). assumption.
+        - inversion Hb; subst. assumption. }
+      exact (proj1 (mv_misc_loop C ev _ _ _ _ _ _ Hh Wb)). }
+    rewrite (NG_tail_d _ _ _ _ W Hng H).
+    intros I HI Hc c1 Hr. eapply (u_parse_document text C ev I HI); eauto.
 Qed.
 
 End DtdTok.
